@@ -430,10 +430,32 @@ def unit_leaf_index():
             continue
         with open(os.path.join(udir, fn)) as f:
             for ln in f:
-                m = re.match(r"\s*//@ extract \S+ :: (impl .*?) :: fn (\w+)", ln)
-                if m:
-                    hdr = re.sub(r"\s+", "", m.group(1).replace("impl ", "impl#"))
-                    idx[(hdr, m.group(2))] = fn[:-3]
+                m = re.match(r"\s*//@ extract (\S+) :: (.*?) :: fn (\S+)(.*)$", ln)
+                if not m:
+                    continue
+                src, path, fname, rest = m.group(1), m.group(2), m.group(3), m.group(4)
+                subst = {}
+                ms = re.search(r"\bsubst=(\S+)", rest)
+                if ms:
+                    for pair in ms.group(1).split(";"):
+                        if "=>" in pair:
+                            k, v = pair.split("=>", 1)
+                            subst[k] = v
+                hdrs = []
+                comps = [c for c in path.split(" :: ") if c.startswith("impl ") or c.startswith("impl<")]
+                if comps:
+                    hdrs.append(comps[-1])
+                elif "macro_rules! impl_mul_assign" in path and "$Other" in subst:
+                    hdrs.append("impl MulAssign<$Other> for %s" % ("BigInt" if "/bigint/" in src else "BigUint"))
+                elif "macro_rules! impl_mul" in path and "$Other" in subst and "$Self" in subst:
+                    hdrs.append("impl Mul<$Other> for $Self")
+                for h in hdrs:
+                    fnm = fname
+                    for k, v in subst.items():
+                        h = h.replace(k, v)
+                        fnm = fnm.replace(k, v)
+                    hdr = re.sub(r"\s+", "", h.replace("impl ", "impl#"))
+                    idx[(hdr, fnm)] = fn[:-3]
     return idx
 
 
